@@ -27,7 +27,7 @@ RULE = ("one run = one seeded history (valid and rejected operations, copy() for
         "operation every live object is hashed and (content digest, hash) is added to batch-wide tables that must stay "
         "functions in both directions; on sampled steps the object is rebuilt (sorted and shuffled insertion) and single-element "
         "edits are applied.  Non-trivial: >= 3 state-changing operations and >= 1 removal; distinct = distinct event-log digests.")
-TIERS = {"quick": {"runs": 2400, "wall_cap": 240, "det_seeds": 12, "min_tests": 400},
+TIERS = {"quick": {"runs": 7200, "wall_cap": 240, "det_seeds": 12, "min_tests": 400},
          "thorough": {"runs": 60000, "wall_cap": 3000, "det_seeds": 40, "min_tests": 1200}}
 
 
